@@ -131,23 +131,10 @@ def check(ctx, src):
     ctx.check(pm.find(ru, "setattr(node, field, chr(ord(v[0]) - ord('a') + ord('𝐚')) + v[1:])") is not None, "H2P-KEYWORDS", f"{CO}|rewriting_unparse|NFKC-equivalent",
               "the replacement must be the NFKC-equivalent spelling (first letter in MATHEMATICAL BOLD)", CO, ru.lineno, detail="bold first letter")
     # --- shared rules
-    sub = core.Ctx(ctx.prop, ctx.tier, ctx.seed)
-    c10.check(sub, src)
-    _transfer(ctx, sub, {"O0", "O1"})
-    sub = core.Ctx(ctx.prop, ctx.tier, ctx.seed)
-    c34.check(sub, src)
-    _transfer(ctx, sub, {"R-ID-MANGLE", "R-ID-MANGLE-STORE"})
-    sub = core.Ctx(ctx.prop, ctx.tier, ctx.seed)
-    c07.check(sub, src)
-    _transfer(ctx, sub, {"OUTERVAR-CLOSED"})
-    sub = core.Ctx(ctx.prop, ctx.tier, ctx.seed)
-    c05.check(sub, src)
-    for i in sub.instances:
-        if i["rule"] == "FN-SHAPE" and ("has_annotations" in i["key"] or "lambda-condition" in i["key"]):
-            i = dict(i); i["rule"] = "H2P-LAMBDA"; ctx.instances.append(i)
-    for f in sub.findings:
-        if f.rule == "FN-SHAPE" and ("has_annotations" in f.key or "lambda-condition" in f.key):
-            f.rule = "H2P-LAMBDA"; ctx.findings.append(f)
+    core.transfer(ctx, src, c10, {"O0", "O1"})
+    core.transfer(ctx, src, c34, {"R-ID-MANGLE", "R-ID-MANGLE-STORE"})
+    core.transfer(ctx, src, c07, {"OUTERVAR-CLOSED"})
+    core.transfer(ctx, src, c05, {"FN-SHAPE"}, key_filter=lambda k: "has_annotations" in k or "lambda-condition" in k, rename={"FN-SHAPE": "H2P-LAMBDA"})
     ctx.assume("behavioural equality of the printed source and the AST is not decided; only necessary conditions for unparse/re-parse are")
     ctx.floor("O0", 150)
     ctx.floor("R-ID-MANGLE", 45)
